@@ -18,6 +18,7 @@
 (*                          has a convert(); same format = type conversion  *)
 (*   Clone(src,dst,mode,ty) dst.clone(src, mode)                            *)
 (*   Transp(src,dst)        dst = src.transpose()    csr, bcsr, dense       *)
+(*   TranspInto(src,dst)    dst.transpose(src)       csr, bcsr, dense (dst = src allowed) *)
 (*   TranspInplace(s)       s.transpose_inplace()    dense                  *)
 (*   Permute(s,p,q)         s.permute(p,q) in place  csr, bcsr              *)
 (*   Layout(src,dst,ty)     dst = MT(src.layout())                          *)
@@ -42,7 +43,7 @@ CONSTANTS NS,        \* number of slots
           Depth,     \* number of calls per emitted history
           Seeds,     \* set of seed family names (see SeedFam)
           SeedTypes, \* types the seed container is built with
-          Ops,       \* enabled calls: subset of {"conv","clone","transp","tinplace","permute","layout","graph","copy","format","poke"}
+          Ops,       \* enabled calls: subset of {"conv","clone","transp","transpinto","tinplace","permute","layout","graph","copy","format","poke"}
           Types,     \* target types offered to conv/clone/layout/graph (the source type is always offered)
           PermSel,   \* "all" = every pair of permutations, "few" = rotations/reversal and their inverses
           Palette    \* 1 = injective non-zero values, 2 = values with stored zeros and repeats
@@ -245,6 +246,25 @@ Transp ==
                           /\ SM(w.slots[dst]) = SN(S) /\ SN(w.slots[dst]) = SM(S)
                           /\ Transpose(SN(S), SM(S), SAbs(w.mem, w.slots[dst])) = SAbs(mem, S))
 
+\* dst.transpose(src), the member that writes INTO an existing container (dst = src is the self transposition a.transpose(a)).
+\* CSR / BCSR build new arrays and move them into dst.  DenseMatrix re-uses the array of dst when dst already has the
+\* transposed shape (the values are rewritten in place and seen through every slot sharing that array - also src itself
+\* when dst aliases src, which happens for square self transposition); otherwise a new matrix is moved into dst.
+TranspInto ==
+  /\ "transpinto" \in Ops /\ More
+  /\ \E src \in 1..NS, dst \in 1..NS :
+       /\ Usable(src) /\ (dst = src \/ DstOK(src, dst)) /\ slots[src].fmt \in {"csr", "bcsr", "dense"}
+       /\ (dst = src => slots[src].bh = slots[src].bw)      \* the argument of a BCSR transpose has the swapped block shape
+       /\ LET S == slots[src]  T == slots[dst]
+              DT == Transpose(SM(S), SN(S), SAbs(mem, S))
+              inplace == S.fmt = "dense" /\ T.fmt = "dense" /\ T.ty = S.ty /\ T.m = S.n /\ T.n = S.m /\ T.m * T.n > 0
+          IN Step([Rec("transpinto", src, dst) EXCEPT !.noarr = (BPat(mem, S) = {})],
+                  IF inplace THEN [slots |-> slots, mem |-> [mem EXCEPT ![T.el[1]] = [d |-> Flatten(DT), def |-> TRUE]]]
+                             ELSE Install(slots, mem, dst, TranspDesc(S)),
+                  LAMBDA w : /\ SAbs(w.mem, w.slots[dst]) = DT
+                             /\ SM(w.slots[dst]) = SN(S) /\ SN(w.slots[dst]) = SM(S)
+                             /\ Transpose(SN(S), SM(S), SAbs(w.mem, w.slots[dst])) = SAbs(mem, S))
+
 \* DenseMatrix::transpose_inplace(): the value array is rewritten in place (visible through every slot sharing
 \* it, which keeps its own dimensions), rows and columns of this container are swapped
 TranspInplace ==
@@ -428,7 +448,7 @@ Init ==
        /\ slots = w.slots /\ mem = w.mem
        /\ hist = <<Rec("seed", 0, 1) @@ [exp |-> <<[slot |-> 1, st |-> Proj(w.mem, w.slots[1])]>>, law |-> TRUE]>>
 
-Next == Conv \/ Clone \/ Transp \/ TranspInplace \/ Permute \/ LayoutOp \/ GraphOp \/ CopyOp \/ FormatOp \/ Poke
+Next == Conv \/ Clone \/ Transp \/ TranspInto \/ TranspInplace \/ Permute \/ LayoutOp \/ GraphOp \/ CopyOp \/ FormatOp \/ Poke
 Spec == Init /\ [][Next]_vars
 
 \* ---- invariants of the specification itself ----------------------------------------
